@@ -1,4 +1,4 @@
-import StoneVerif.Lemmas.DeclPy
+import StoneVerif.Lemmas.DeclPyTop
 /-!
 # C09 - generated Python modules load and expose the whole API
 
@@ -101,6 +101,113 @@ theorem defines_once (api : Api) (ns : Namespace) (h : nodupB (bindNames api ns)
     ((pyTypesStmts api ns).flatMap Stmt.globals).Nodup := by
   rw [globals_pyTypesStmts]
   exact nodup_of_nodupB h
+
+/-! ## The generated package imports -/
+
+/-- **The generated package imports, whichever namespace module is imported first.** For every API description
+that satisfies `apiWF` (decidable; evaluated by the driver on every explored spec) and whose import graph is
+acyclic, importing the module of ANY namespace `first` into a fresh interpreter succeeds, and leaves that module
+completely loaded (`Loaded`: classes, validators, reflection tables, aliases are all bound). -/
+theorem import_safe (api : Api) (h : apiWF api = true) (hdag : Acyclic (importEdges api)) (first : Namespace)
+    (hf : first ∈ api.namespaces) :
+    ∃ st, importFrom (pyModules api) (fmtNamespace first.name) = .ok st ∧ Loaded api st first := by
+  obtain ⟨st', hrun, _, hl⟩ := import_step h hdag (st := {}) ⟨stWF_empty, fun _ _ hs => by simp at hs⟩ hf
+  exact ⟨st', hrun, hl⟩
+
+/-- the same, read off the result: no exception -/
+theorem import_safe_no_error (api : Api) (h : apiWF api = true) (hdag : Acyclic (importEdges api))
+    (first : Namespace) (hf : first ∈ api.namespaces) :
+    errOf (importFrom (pyModules api) (fmtNamespace first.name)) = none := by
+  obtain ⟨st, hst, _⟩ := import_safe api h hdag first hf
+  rw [hst]; rfl
+
+/-- … and importing every other module afterwards (what the harness does in each fresh interpreter, and what the
+driver reports as the model's verdict) succeeds too, with every module completely loaded. -/
+theorem import_all_safe (api : Api) (h : apiWF api = true) (hdag : Acyclic (importEdges api)) (first : Namespace)
+    (hf : first ∈ api.namespaces) :
+    ∃ st, importAll (pyModules api) (fmtNamespace first.name) = .ok st
+      ∧ ∀ ns ∈ api.namespaces, Loaded api st ns := by
+  have key : ∀ (l : List Namespace), (∀ ns ∈ l, ns ∈ api.namespaces) → ∀ st, TopInv api st →
+      ∃ st', (l.map modName).foldlM (fun st m => runMod (pyModules api) ((pyModules api).length + 1) st m) st = .ok st'
+        ∧ TopInv api st' ∧ (∀ m ∈ st.started, m ∈ st'.started) ∧ ∀ ns ∈ l, modName ns ∈ st'.started := by
+    intro l
+    induction l with
+    | nil => intro _ st hinv; exact ⟨st, rfl, hinv, fun _ h => h, fun _ h => by simp at h⟩
+    | cons x xs ih =>
+      intro hsub st hinv
+      obtain ⟨st1, hrun, hinv1, hl1⟩ := import_step h hdag hinv (hsub x List.mem_cons_self)
+      have hmono1 : ∀ m ∈ st.started, m ∈ st1.started := by
+        intro m hm
+        by_cases hst : modName x ∈ st.started
+        · rw [runMod_started hst] at hrun; injection hrun with hrun; subst hrun; exact hm
+        · -- the state only grows
+          obtain ⟨rank, hrank⟩ := hdag
+          obtain ⟨st1', hrun', hpost⟩ := load_module h rank hrank (rank x.name + 1) x (hsub x List.mem_cons_self)
+            (Nat.lt_succ_self _) ((pyModules api).length + 1) st hinv.wf
+            (by rw [pyModules_length]; exact Nat.lt_succ_of_le (unstartedIn_le_length _ _))
+            (fun ns' hns' _ hs' => hinv.loaded ns' hns' hs') hst
+          rw [hrun] at hrun'; injection hrun' with hrun'; subst hrun'
+          exact hpost.le.started m hm
+      obtain ⟨st2, hfold, hinv2, hmono2, hall2⟩ := ih (fun ns hns => hsub ns (List.mem_cons_of_mem _ hns)) st1 hinv1
+      refine ⟨st2, ?_, hinv2, fun m hm => hmono2 m (hmono1 m hm), ?_⟩
+      · simp only [List.map_cons, List.foldlM_cons, hrun, bind, Except.bind]
+        exact hfold
+      · intro ns hns
+        rcases List.mem_cons.mp hns with rfl | hns
+        · exact hmono2 _ hl1.started
+        · exact hall2 ns hns
+  obtain ⟨st', hfold, hinv', _, hall'⟩ := key (first :: api.namespaces)
+    (fun ns hns => by rcases List.mem_cons.mp hns with rfl | hns; exact hf; exact hns) {}
+    ⟨stWF_empty, fun _ _ hs => by simp at hs⟩
+  refine ⟨st', ?_, fun ns hns => hinv'.loaded ns hns (hall' ns (List.mem_cons_of_mem _ hns))⟩
+  have hnames : (pyModules api).map (·.1) = api.namespaces.map modName := by
+    simp [pyModules, modName, Function.comp_def]
+  unfold importAll
+  rw [hnames]
+  exact hfold
+
+
+/-- the executable acyclicity test the driver reports (`"acyclic"`) is sound: it exhibits the ranking -/
+theorem acyclic_of_acyclicB (api : Api) (h : acyclicB api = true) : Acyclic (importEdges api) := by
+  refine ⟨rankFn (apiRanks api), fun e he => ?_⟩
+  simp only [acyclicB, List.all_eq_true, decide_eq_true_eq] at h
+  exact h e he
+
+/-- both hypotheses in the form the driver evaluates them on every explored spec -/
+theorem import_all_safe_checked (api : Api) (h : apiWF api = true) (hdag : acyclicB api = true) (first : Namespace)
+    (hf : first ∈ api.namespaces) : errOf (importAll (pyModules api) (fmtNamespace first.name)) = none := by
+  obtain ⟨st, hst, _⟩ := import_all_safe api h (acyclic_of_acyclicB api hdag) first hf
+  rw [hst]; rfl
+
+/-- Non-vacuity: two namespaces; a struct tree with an omitted caller, a struct and a union extending across the
+namespace border, aliases of aliases ending in a class, a tag default reached through an alias, forward references,
+a route. `apiWF` and acyclicity hold, so `import_safe` applies (and the import indeed succeeds, by evaluation). -/
+def sampleApi : Api := { namespaces := [
+  { name := "base",
+    types := [
+      { isStruct := true, name := "Root", subtypes := [("base", "Leaf")],
+        fields := [{ name := "id", ty := .alias "base" "Id" }, { name := "hidden", ty := .nullable .prim, caller := some "internal" }] },
+      { isStruct := true, name := "Leaf", parent := some ("base", "Root"),
+        fields := [{ name := "later", ty := .list (.user "base" "Zed") }] },
+      { isStruct := false, name := "Level", catchAll := true,
+        fields := [{ name := "low", ty := .void }, { name := "custom", ty := .prim }, { name := "other", ty := .void }] },
+      { isStruct := true, name := "Zed", fields := [{ name := "lvl", ty := .user "base" "Level", dflt := some (.tag (.user "base" "Level") "low") }] }],
+    aliases := [{ name := "Id", ty := .prim }, { name := "LevelAlias", ty := .user "base" "Level" }] },
+  { name := "top", imports := ["base"],
+    types := [
+      { isStruct := true, name := "Child", parent := some ("base", "Zed"),
+        fields := [{ name := "pick", ty := .alias "top" "Lvl2", dflt := some (.tag (.alias "top" "Lvl2") "low") },
+                   { name := "secret", ty := .prim, caller := some "internal", redact := true }] },
+      { isStruct := false, name := "More", parent := some ("base", "Level"),
+        fields := [{ name := "extreme", ty := .void }, { name := "detail", ty := .user "top" "Child" }] }],
+    aliases := [{ name := "Lvl2", ty := .alias "base" "LevelAlias" }, { name := "Ids", ty := .list (.alias "base" "Id") }],
+    routes := [{ name := "get_thing", version := 2, arg := .user "top" "Child", result := .alias "top" "Ids",
+                 error := .user "top" "More", attrs := [("auth", .plain)] }] }] }
+
+set_option maxRecDepth 100000 in
+example : apiWF sampleApi = true ∧ acyclicB sampleApi = true
+    ∧ errOf (importAll (pyModules sampleApi) "top") = none ∧ errOf (importAll (pyModules sampleApi) "base") = none := by
+  refine ⟨by decide, by decide, by decide, by decide⟩
 
 /-! ## Witnesses: why `import_safe` needs its hypotheses -/
 
